@@ -307,6 +307,11 @@ def r2_stat(text):
     return _remove_macro_stmts(text, ['stat'])
 
 
+def r20_eprintln(text):
+    """R20: diagnostic output statements `eprintln!(..);` / `println!(..);` are deleted (no effect on any value)"""
+    return _remove_macro_stmts(text, ['eprintln', 'println'])
+
+
 def r3_debug_assert(text):
     return _remove_macro_stmts(text, ['debug_assert', 'debug_assert_eq', 'debug_assert_ne'])
 
